@@ -50,6 +50,7 @@ class ProgGen:
         self.feat = set()
         self.future = rng.random() < 0.45
         self.hostile = hostile
+        self.nonascii = rng.random() < 0.2
         self.funcs = {}      # name -> (npos, kwnames)
         self.classes = []
         self.consts = []
@@ -196,7 +197,7 @@ class ProgGen:
         if r < 0.4:
             return self.name(sc)
         if r < 0.55:
-            return "(%s)" % self.ch([0, 1, 2, -1, 10, 255, 3.5, 10**20])
+            return "(%s)" % self.ch([0, 1, 2, -1, 10, 255, 3.5, 0, 1, 2, 7, 100, -5, 1.5, 10**20] if self.p(0.5) else [0, 1, 2, -1, 10, 255, 3.5])
         if r < 0.7:
             return repr(self.ch(["", "a", "abc", "%s", "%d %s", "{} {}", "{x}", "é", "a\tb"]))
         if r < 0.75:
@@ -886,6 +887,14 @@ class ProgGen:
         return ["class %s:" % n] + self.ind(body) + ["%s = %s()" % (inst, n)]
 
     def module(self):
+        src = self._module()
+        if not self.nonascii:
+            src = src.replace("é", "e")
+        else:
+            self.f("non_ascii")
+        return src
+
+    def _module(self):
         out = []
         if self.future:
             out.append("from __future__ import annotations")
